@@ -429,7 +429,7 @@ class PyMarkdownLint:
                 did_only_list_files,
             ) = self.__find_files_to_scan(args)
             if did_only_list_files:
-                if not files_to_scan:
+                if not files_to_scan or did_error_scanning_files:
                     scan_result = ApplicationResult.NO_FILES_TO_SCAN
                 ReturnCodeHelper.exit_application(scan_result)
             else:
